@@ -160,7 +160,8 @@ def run(ctx):
     n_dict = 0
     for kind, n in [("shared-valid", 6), ("shared-valid", 12), ("shared-valid", 20), ("shared-valid", 60),
                     ("label-longer-than-key", 12), ("label-longer-than-key", 24), ("label-longer-than-key", 60),
-                    ("aug-label-longer-than-key", 24)]:
+                    ("aug-label-longer-than-key", 24), ("label-longer-than-key-long-forks", 24),
+                    ("aug-label-longer-than-key-long-forks", 40)]:
         n_dict += 1
         ctx.note_case(["dict-adversarial", kind, n])
         r = core.call_impl(lambda _: dict_case(kind, n), None, timeout_s=30)
@@ -194,6 +195,13 @@ def dict_case(kind, n):
         cur = Builder().store_bits("00").store_ref(cur).store_ref(cur).end_cell()
     key_len = n
     if kind != "shared-valid":
+        if kind.endswith("long-forks"):
+            # every fork of the chain carries an empty hml_long label whose length field has the width the parser would
+            # use at that (negative) remaining key length, so that no later label stops the walk either
+            cur = cells.build_py([cells.pruned_node(1, [b"\x11" * 32], [0])])[-1]
+            for depth in range(n, 0, -1):
+                m = 4 - 6 - depth                  # remaining key length at that depth after the over-long root label
+                cur = Builder().store_bits("10" + "0" * abs(m).bit_length()).store_ref(cur).store_ref(cur).end_cell()
         # root: hml_long$10 n:(#<= 4)=6 (3 bits) s:6 bits -> 2 bits more than the key has
         cur = Builder().store_bits("10" + "110" + "000000").store_ref(cur).store_ref(cur).end_cell()
         key_len = 4
